@@ -61,12 +61,21 @@ def gen_case(rng):
     return chunks, plans, trailing_break
 
 
+def gen_prelude(rng, chunks):
+    """A header written on the same writer *before* sanitisation is switched on (its strings are the very
+    strings the chunks contain, so the same value is written in both modes); the reader skips it by slicing."""
+    strs = [f[3] for c in chunks for f in c if f[0] == "str"]
+    if not strs or rng.random() < 0.6:
+        return []
+    return [rng.choice(strs) for _ in range(rng.randrange(1, 4))]
+
+
 def run(shard, rec, tier, seed):
     ns = stage.shim()
     rng = random.Random("C06-%d-%d" % (seed, shard["part"]))
     for _ in range(shard["n"]):
         chunks, plans, tb = gen_case(rng)
-        run_case(ns, rec, chunks, plans, tb)
+        run_case(ns, rec, chunks, plans, tb, gen_prelude(rng, chunks))
         odd = any(k != len(f) or extra for f, (k, extra) in zip(chunks, plans))
         rec.case((chunks, plans, tb), nontrivial=len(chunks) >= 2 and odd)
     rec.sample({"chunks": chunks[:3], "plans": plans[:3]})
@@ -76,14 +85,19 @@ def expected_text(s):
     return cp1252.text(cp1252.image(s).replace(b"\xff", b"y"))
 
 
-def run_case(ns, rec, chunks, plans, trailing_break):
-    case = {"chunks": chunks, "plans": plans, "trailing_break": trailing_break}
+def run_case(ns, rec, chunks, plans, trailing_break, prelude=()):
+    case = {"chunks": chunks, "plans": plans, "trailing_break": trailing_break, "prelude": list(prelude)}
     w = ns.EoWriter()
+    for i, s in enumerate(prelude):
+        (w.add_encoded_string if i % 2 else w.add_string)(s)
+    skip = len(w)
+    if prelude:
+        rec.count("cases-with-unsanitised-prelude")
     w.string_sanitization_mode = True
     starts = []
     try:
         for ci, fields in enumerate(chunks):
-            starts.append(len(w))
+            starts.append(len(w) - skip)
             for f in fields:
                 before = len(w)
                 if f[0] == "int":
@@ -104,9 +118,10 @@ def run_case(ns, rec, chunks, plans, trailing_break):
     except Exception as ex:
         rec.violation("write-raises", "writing chunks raised %r" % ex, case)
         return
-    out = bytes(w.to_bytearray())
+    whole = bytes(w.to_bytearray())
+    out = whole[skip:]
     starts.append(len(out))  # where a chunk after the last one would start
-    r = ns.EoReader(out)
+    r = ns.EoReader(whole).slice(skip) if prelude else ns.EoReader(out)
     r.chunked_reading_mode = True
     try:
         for ci, (fields, (k, extra)) in enumerate(zip(chunks, plans)):
